@@ -92,24 +92,33 @@ func SendMissingStz(lastSent int, s Sender, uaq *stanza.UnAckQueue) error {
 		uaq.RWMutex.Unlock()
 		return nil
 	}
-	last := uaq.Uslice[len(uaq.Uslice)-1]
-	if last.Id > lastSent {
-		// Remove sent stanzas from the queue
-		uaq.PopN(lastSent - last.Id)
-		// Re-send non acknowledged stanzas
-		for _, elt := range uaq.PopN(len(uaq.Uslice)) {
-			eltStz := elt.(*stanza.UnAckedStz)
-			err := s.SendRaw(eltStz.Stz)
-			if err != nil {
-				return err
-			}
-
-		}
-		// Ask for updates on stanzas we just sent to the entity. Not sure I should leave this. Maybe let users call ack again by themselves ?
-		s.Send(stanza.SMRequest{})
+	// Remove the stanzas acknowledged by the server from the queue
+	acked := 0
+	for acked < len(uaq.Uslice) && uaq.Uslice[acked].Id <= lastSent {
+		acked++
 	}
+	uaq.PopN(acked)
+	// Re-send non acknowledged stanzas. They are taken out of the queue, as SendRaw queues them again.
+	missing := uaq.PopN(len(uaq.Uslice))
 	uaq.RWMutex.Unlock()
-	return nil
+	if len(missing) == 0 {
+		return nil
+	}
+	for i, elt := range missing {
+		eltStz := elt.(*stanza.UnAckedStz)
+		err := s.SendRaw(eltStz.Stz)
+		if err != nil {
+			// Keep holding what could not be sent again (SendRaw queued the failed one already)
+			uaq.RWMutex.Lock()
+			for _, rest := range missing[i+1:] {
+				uaq.Push(rest)
+			}
+			uaq.RWMutex.Unlock()
+			return err
+		}
+	}
+	// Ask for updates on stanzas we just sent to the entity. Not sure I should leave this. Maybe let users call ack again by themselves ?
+	return s.Send(stanza.SMRequest{})
 }
 
 func iqNotImplemented(s Sender, iq *stanza.IQ) {
